@@ -14,7 +14,7 @@ func init() {
 		Run:   runC16,
 		Modes: []string{"deadlock"},
 		Meta: propMeta{
-			Explanation: "Static protocol clauses of runtime/workerpool (with syncutils Counter/Stack) on all CFG paths: (1) submit atomicity: the running check that licenses a submission and the count+enqueue it licenses lie in one critical section of the pool mutex that Shutdown holds when it flips the flag; counting precedes publishing; (2) task conservation at every hand-over: a task popped with success is sent to the dispatch channel on every path, a task received with ok is run (or, on shutdown, run or marked done by option), run marks done after the function on every path, markDone invokes the done callback on every path, the done callback given in Submit is decreasePendingTasks, increase/decrease map to Counter.Increase/Decrease; (3) shutdown protocol: Shutdown clears the flag, sends exactly workerCount signals on a channel of that capacity and signals the queue; the dispatcher closes the dispatch channel only after the pending counter reached zero and loops while running or queue non-empty; ShutdownComplete.Add precedes each go worker and Done is deferred first; isRunning only under the mutex; (4) condition-variable protocol of Counter and Stack (wait loops, signal after the Locker's critical section); (5) Group maps exactly the 0->n and n->0 transitions of child counters to Increase/Decrease.",
+			Explanation: "Static protocol clauses of runtime/workerpool (with syncutils Counter/Stack) on all CFG paths: (1) submit atomicity: the running check that licenses a submission and the count+enqueue it licenses lie in one critical section of the pool mutex that Shutdown holds when it flips the flag; counting precedes publishing; (2) task conservation at every hand-over: a task popped with success is sent to the dispatch channel on every path, a task received with ok is run (or, on shutdown, run or marked done by option), run marks done after the function on every path, markDone invokes the done callback on every path, the done callback given in Submit is decreasePendingTasks, increase/decrease map to Counter.Increase/Decrease; (3) shutdown protocol: Shutdown clears the flag, sends exactly workerCount signals on a channel of that capacity and signals the queue; the dispatcher closes the dispatch channel only after the pending counter reached zero and loops while running or queue non-empty; ShutdownComplete.Add precedes each go worker and Done is deferred first; isRunning only under the mutex; (4) condition-variable protocol of Counter and Stack (wait loops, signal after the Locker's critical section); (5) Group maps exactly the 0->n and n->0 transitions of child counters to Increase/Decrease. The child subscription adjusts the counter of the creating group.",
 			NotDecided:  "termination and exactly-once over all interleavings (needs schedule exploration); restart interleavings",
 			Assumptions: []string{"sync primitives behave as documented"},
 		},
